@@ -104,8 +104,11 @@ def group_cases(draw, tier):
 
 def o_group(spec):
     nm, a, b = spec["g"], spec["a"], spec["b"]
-    mk = lambda x: must(lambda: ref.npm(cgen.build_base({"g": nm, "p": [x]}).matrix), f"{nm}({x}).matrix")
-    A, B, AB, Z = mk(a), mk(b), mk(a + b), mk(0.0)
+    # all four matrices are requested first and looked at afterwards (they are used together, as in any product)
+    held = [must(lambda: cgen.build_base({"g": nm, "p": [x]}).matrix, f"{nm}({x}).matrix") for x in (a, b, a + b, 0.0)]
+    A, B, AB, Z = [ref.npm(m) for m in held]
+    for x, M in zip((a, b, a + b, 0.0), (A, B, AB, Z)):
+        require(ref.close(M, ref.closed(nm, [x]), 1e-8), lambda: f"{nm}({x}).matrix, read after other {nm} matrices were requested, differs from its closed form (max|d|={ref.maxdiff(M, ref.closed(nm, [x])):.3g})")
     d = A.shape[0]
     require(ref.close(Z, np.eye(d), 1e-10), lambda: f"{nm}(0) is not the identity")
     require(ref.close(B @ A, AB, 1e-8), lambda: f"{nm}({a}) then {nm}({b}) != {nm}({a + b}), max|d|={ref.maxdiff(B @ A, AB):.3g}")
